@@ -112,7 +112,7 @@ class StepController(abc.ABC):
             return
 
         iterate = step.iterate
-        state = StateData()
+        state = StateData(iterate, step)
         state["iter"] = lambda: iteration
         state["residuum"] = lambda: self.res_func(iterate)
         state["dist"] = lambda: step.diff
